@@ -42,6 +42,12 @@ type Envelope struct {
 
 type linkKey struct{ from, to peer.ID }
 
+type blockedSend struct {
+	k    linkKey
+	c    chan struct{}
+	fail *bool
+}
+
 type link struct {
 	queue   []*Envelope
 	release chan *Envelope
@@ -70,14 +76,15 @@ type Net struct {
 	// ConnectPolicy may fail ConnectTo / NewMessageSender. nil = always succeed.
 	ConnectPolicy func(from, to peer.ID) error
 
-	blocked []chan struct{}
+	blocked []blockedSend
+	epoch   map[linkKey]int // connection generation per directed pair; a sender dies with its connection
 	closed  bool
 	wg      sync.WaitGroup
 }
 
 func NewNet() *Net {
 	return &Net{ends: map[peer.ID]*Endpoint{}, links: map[linkKey]*link{}, connected: map[linkKey]bool{},
-		SendAttempts: map[linkKey]int{}, handler: gsmsgv2.NewMessageHandler()}
+		SendAttempts: map[linkKey]int{}, handler: gsmsgv2.NewMessageHandler(), epoch: map[linkKey]int{}}
 }
 
 // Endpoint is one peer's view of the network; implements gsnet.GraphSyncNetwork.
@@ -284,13 +291,28 @@ func (n *Net) Disconnect(a, b peer.ID) {
 	}
 	delete(n.connected, linkKey{a, b})
 	delete(n.connected, linkKey{b, a})
+	var release []blockedSend
 	for _, k := range []linkKey{{a, b}, {b, a}} {
 		if l := n.links[k]; l != nil {
 			l.queue = nil
 		}
+		n.epoch[k]++
+		var keep []blockedSend
+		for _, bs := range n.blocked {
+			if bs.k == k {
+				*bs.fail = true
+				release = append(release, bs)
+			} else {
+				keep = append(keep, bs)
+			}
+		}
+		n.blocked = keep
 	}
 	ea, eb := n.ends[a], n.ends[b]
 	n.mu.Unlock()
+	for _, bs := range release {
+		close(bs.c) // sends stalled on the lost connection fail
+	}
 	if ea != nil && ea.recv != nil {
 		ea.recv.Disconnected(b)
 	}
@@ -311,8 +333,8 @@ func (n *Net) ReleaseBlocked() {
 	bl := n.blocked
 	n.blocked = nil
 	n.mu.Unlock()
-	for _, c := range bl {
-		close(c)
+	for _, bs := range bl {
+		close(bs.c)
 	}
 }
 
@@ -360,12 +382,16 @@ func (e *Endpoint) NewMessageSender(ctx context.Context, p peer.ID, _ gsnet.Mess
 			return nil, err
 		}
 	}
-	return &sender{e: e, to: p}, nil
+	e.net.mu.Lock()
+	ep := e.net.epoch[linkKey{e.ID, p}]
+	e.net.mu.Unlock()
+	return &sender{e: e, to: p, epoch: ep}, nil
 }
 
 type sender struct {
-	e  *Endpoint
-	to peer.ID
+	e     *Endpoint
+	to    peer.ID
+	epoch int
 }
 
 func (s *sender) Close() error { return nil }
@@ -375,6 +401,10 @@ func (s *sender) SendMsg(ctx context.Context, m gsmsg.GraphSyncMessage) error {
 	n := s.e.net
 	k := linkKey{s.e.ID, s.to}
 	n.mu.Lock()
+	if n.epoch[k] != s.epoch {
+		n.mu.Unlock()
+		return fmt.Errorf("sim: stream to %s was reset (connection closed)", s.to)
+	}
 	idx := n.SendAttempts[k]
 	n.SendAttempts[k] = idx + 1
 	n.Attempts = append(n.Attempts, &Envelope{Seq: -1, From: s.e.ID, To: s.to, Msg: m})
@@ -389,11 +419,15 @@ func (s *sender) SendMsg(ctx context.Context, m gsmsg.GraphSyncMessage) error {
 		return fmt.Errorf("sim: send %d on %s->%s failed", idx, s.e.ID, s.to)
 	case SendBlock:
 		c := make(chan struct{})
+		failed := false
 		n.mu.Lock()
-		n.blocked = append(n.blocked, c)
+		n.blocked = append(n.blocked, blockedSend{k: k, c: c, fail: &failed})
 		n.mu.Unlock()
 		select {
 		case <-c:
+			if failed {
+				return fmt.Errorf("sim: connection to %s closed while sending", s.to)
+			}
 		case <-ctx.Done():
 			return ctx.Err()
 		}
